@@ -167,9 +167,13 @@ def gen_cases(ctx):
     for _ in range(ctx.n(16, 120)):
         for v in variants:
             n = rng.choice([2, 3, 3, 4, 4, 5, 5, 6])
-            kind = rng.choice([None, None, "spider"])
+            kind = rng.choice([None, None, "spider", "twig", "bush"])
             if kind == "spider":
                 n = rng.choice([5, 6, 7])
+            elif kind == "twig":
+                n = rng.choice([6, 7])
+            elif kind == "bush":
+                n = rng.choice([5, 6])
             par = gen.random_parent_array(rng, n, kind)
             cases.append({"variant": v, "par": par, "seed": rng.randrange(10 ** 9),
                           "herm": rng.random() < 0.6, "steps": 2})
